@@ -51,8 +51,13 @@ JOBS = {'quick': 12}
 EXHAUSTIVE = {}
 
 
+# bundled sample files small enough to be cut at every byte
+SAMPLE_FMTS = ['uamiv', 'temperature', 'height_pressure', 'humidity',
+               'vertical_diffusivity', 'wind', 'cloud_rain', 'landuse']
+
+
 def ncases(tier):
-    return IMAGES[tier] * len(FMTS) * CHUNKS
+    return (IMAGES[tier] * len(FMTS) + len(SAMPLE_FMTS)) * CHUNKS
 
 
 def gen(rng, idx, tier, seed):
@@ -62,7 +67,11 @@ def gen(rng, idx, tier, seed):
     chunk = idx % CHUNKS
     idx = idx // CHUNKS
     rng = case_rng(seed, PROP, idx)
-    spec = gen_image(rng, idx, tier, seed)
+    if idx >= IMAGES[tier] * len(FMTS):
+        spec = {'fmt': SAMPLE_FMTS[idx - IMAGES[tier] * len(FMTS)],
+                'sample': True, 'ny': 4, 'nx': 5, 'nt': 2, 'nz': 3}
+    else:
+        spec = gen_image(rng, idx, tier, seed)
     spec['chunk'] = chunk
     return spec
 
@@ -226,7 +235,15 @@ def run(spec, res):
         from . import c18
         return c18.run_truncation(spec, res, judge_prefix, classify,
                                   record_edges)
-    img = refcamx.encode(spec)
+    if spec.get('sample'):
+        from PseudoNetCDF.testcase import camxfiles_paths
+        img = open(camxfiles_paths[fmt], 'rb').read()
+        dec = refcamx.decode(fmt, img, spec['ny'], spec['nx'])
+        spec = dict(spec, nt=dec['dims'].get('TSTEP', 1),
+                    nz=dec['dims'].get('LAY', 1))
+        res.facet('sample:' + fmt)
+    else:
+        img = refcamx.encode(spec)
     with harness.casedir() as d:
         path = os.path.join(d, 'full.' + fmt)
         with open(path, 'wb') as fh:
@@ -239,7 +256,6 @@ def run(spec, res):
             return
         edges = record_edges(img)
         # step boundaries: after the header block, every nrec-per-step
-        c = refcamx.content(spec)
         nrec = len(edges)
         nt = spec['nt']
         if fmt in ('uamiv', 'lateral_boundary'):
